@@ -156,6 +156,19 @@ def run_aggregate(chk, spec, table=None):
 		any(v is None for c in spec["table"]["cols"] for v in c)))
 	if model_exc is not None:
 		apply_raises(chk, "aggregate", spec, o, model_exc)
+		# ... and no group was handed to a function twice on the way to that exception
+		import collections
+		for a in spec["apply"]:
+			if a["fn"].startswith("builtin-"):
+				continue
+			data = common.ref_values(spec, a["col"])
+			want = collections.Counter(repr(tuple(data[i] for i in rows)) for _, rows in groups)
+			have = collections.Counter(repr(c) for c in spies.calls.get(a["out"], []))
+			extra = {k: v for k, v in have.items() if v > want.get(k, 0)}
+			if extra:
+				chk.fail("a custom apply function receives each group's values in row order exactly once", f"aggregate/apply-call-count/{a['fn']}/before-its-exception",
+					f"{spec!r}: apply {a['out']!r} raised {type(model_exc).__name__} for some group; calls made: {dict(have)!r}, groups: {dict(want)!r}")
+				return
 		return
 	if not o.ok:
 		chk.fail("aggregate computes every admissible request", f"aggregate/raises/{type(o.exc).__name__}", f"{spec!r} raised {o!r}")
@@ -317,6 +330,15 @@ def directed_specs(op):
 	out.append(dict(base, table={"names": ["a2", "a", "v"], "cols": [k, [1, 1, 2, 2, 1, 1], v]}, over=[name("a2"), name("a"), {"mode": "external", "values": [0, 0, 0, 1, 1, 1], "name": "a"}], aggs={"max": [name("v")]}))
 	out.append(dict(base, table={"names": ["k", "k2", "v"], "cols": [k, [1, 1, 2, 2, 1, 1], v]}, over=[name("k"), {"mode": "external", "values": [0, 0, 0, 1, 1, 1], "name": "k"}, name("k2")], aggs={"sum": [name("v")]}))
 	out.append(dict(base, table={"names": ["k", "x"], "cols": [k, v]}, over=[name("k")], aggs={"sum": [name("x"), name("x")]}, apply=[{"out": "x_sum2", "col": name("x"), "fn": "builtin-max"}]))
+	# ONE key column whose cells are tuples (plain, nested, of one element, empty), next to two-key requests over the same cells
+	for tk in ([("a", 1), ("b", 2), ("a", 1), ("b", 3), ("a", 2), ()], [(1,), (2,), (1,), ((1,),), (1, None), (None,)], [((1, 2), 3), (1, (2, 3)), ((1, 2), 3), (1, 2, 3), (1, (2, 3)), ((1, 2), 3)]):
+		out.append(dict(base, table={"names": ["k", "v", "w"], "cols": [tk, v, w]}, over=[name("k")], aggs={"sum": [name("v")], "count": [name("w")]}))
+		out.append(dict(base, table={"names": ["k", "v", "w"], "cols": [tk, v, w]}, over=[vec("k")], aggs={"max": [name("v")]}, scalar_over=True))
+		out.append(dict(base, table={"names": ["k", "g", "v"], "cols": [tk, [1, 1, 2, 2, 1, 1], v]}, over=[name("k"), name("g")], aggs={"sum": [name("v")]}))
+	# an apply function that raises AttributeError for some group
+	out.append(dict(base, table={"names": ["k", "s", "v"], "cols": [k, ["x ", None, " y", "z", "q", None], v]}, over=[name("k")], aggs={"sum": [name("v")]}, apply=[{"out": "st", "col": name("s"), "fn": "strip-first"}]))
+	out.append(dict(base, table={"names": ["k", "s", "v"], "cols": [k, [None, " p", " y", "z", "q", "r"], v]}, over=[name("k")], aggs={}, apply=[{"out": "st", "col": name("s"), "fn": "strip-first"}, {"out": "n", "col": name("v"), "fn": "len"}]))
+	out.append(dict(base, table={"names": ["k", "s", "v"], "cols": [k, [1, 2, None, 4, 5, 6], v]}, over=[name("k")], aggs={}, apply=[{"out": "rs", "col": name("s"), "fn": "real-sum"}]))
 	# columns that differ only in hash-colliding cells
 	big = 2 ** 61 - 1
 	for x, y in (([-1, 5, -1, 2, -1, 0], [-2, 5, -2, 2, -2, 0]), ([0, 7, 0, 1, 3, 3], [big, 7, big, 1, 3, 3]), ([1, 2, 3, 4, 5, 6], [1 + big, 2, 3, 4, 5, 6])):
@@ -368,7 +390,17 @@ def run_key_forms_sequence(chk, spec):
 	op = spec["op"]
 	with warnings.catch_warnings():
 		warnings.simplefilter("ignore")
-		if spec["what"] == "unnamed-then-accessor":
+		if spec["what"] == "uniform-key-then-written":
+			# a key vector made by Vector.new (one value repeated) and written to afterwards is a key like any other
+			k = Vector.new(spec.get("fill", "a"), 4)
+			t = Table([Vector([1, 2, 3, 4], name="v"), Vector([9, 9, 8, 8], name="key")])
+			names0 = t.column_names()
+			first = call(lambda: getattr(t, op)(over=k, sum_over="v"))
+			k[1] = "b"
+			k[3] = "b"
+			calls = [lambda: getattr(t, op)(over=k, sum_over="v"), lambda: getattr(t, op)(over=[k, "key"], sum_over="v")]
+			keys = [["a", "b", "a", "b"], [("a", 9), ("b", 9), ("a", 8), ("b", 8)]]
+		elif spec["what"] == "unnamed-then-accessor":
 			k = ["a", "b", "a", "c"]
 			t = Table([Vector(list(k)), Vector([1, 2, 3, 4], name="v"), Vector([9, 9, 8, 8], name="key")])
 			names0 = t.column_names()
@@ -382,7 +414,7 @@ def run_key_forms_sequence(chk, spec):
 			calls = [lambda: getattr(t, op)(over=list(spell), sum_over="v")]
 			keycols = {"year": yr, "region_name": rg, "total_sales": [1, 2, 3, 4, 5]}
 			keys = [[tuple(keycols[_sanit(nm)][i] for nm in spell) for i in range(5)]]
-		v = [1, 2, 3, 4] if spec["what"] == "unnamed-then-accessor" else [1, 1, 1, 1, 1]
+		v = [1, 2, 3, 4] if spec["what"] in ("unnamed-then-accessor", "uniform-key-then-written") else [1, 1, 1, 1, 1]
 		chk.judged("aggregate", ("key-forms-sequence", op, spec["what"], spec.get("spelling")))
 		for ci, (f, kc) in enumerate(zip(calls, keys)):
 			o = call(f)
@@ -484,6 +516,7 @@ def chain_cases(chk, second_op):
 
 def key_form_cases(chk, op):
 	chk.case("key_forms_sequence", {"op": op, "what": "unnamed-then-accessor"}, "key-forms")
+	chk.case("key_forms_sequence", {"op": op, "what": "uniform-key-then-written"}, "key-forms")
 	for spelling in ("accessor", "upper", "mixed", "exact", "three"):
 		chk.case("key_forms_sequence", {"op": op, "what": "spelled-names", "spelling": spelling}, "key-forms")
 
